@@ -33,6 +33,9 @@ import (
 type Collector struct {
 	mu    sync.Mutex
 	stack ers.Stack
+	// resolved is the copy of the stack's head node that Resolve
+	// handed out last; it is reused until another error is added.
+	resolved *ers.Stack
 }
 
 // New constructs an empty Collector. Collectors can be used without
@@ -92,7 +95,16 @@ func (ec *Collector) Resolve() error {
 		return nil
 	}
 
-	return &ec.stack
+	// hand out a copy of the head node, not a pointer into the
+	// collector: Add rewrites the head in place under the mutex
+	// (the nodes behind it are never modified), and callers read
+	// the returned error without the mutex.
+	if ec.resolved == nil || ec.resolved.Len() != ec.stack.Len() {
+		st := ec.stack
+		ec.resolved = &st
+	}
+
+	return ec.resolved
 }
 
 // HasErrors returns true if there are any underlying errors, and
